@@ -235,7 +235,7 @@ func (v *val) clone() *val {
 
 // normalising constructors -----------------------------------------------------
 
-var binParts = map[string][3]string{}  // result -> op, a, b
+var binParts = map[string][3]string{} // result -> op, a, b
 var callParts = map[string][]string{} // result -> fn, args...
 
 func mkNot(s string) string {
